@@ -101,11 +101,15 @@ pub struct Universe {
 impl Universe {
     pub fn new<'a>(ops: impl Iterator<Item = &'a FOp>) -> Self {
         let mut keys: BTreeSet<Vec<Vec<u8>>> = BTreeSet::new();
+        let mut used: BTreeSet<String> = BTreeSet::new();
         keys.insert(Vec::new());
         keys.insert(vec![ALIEN.to_vec()]);
         for o in ops {
             if let Some(k) = o.fresh_key() {
                 keys.insert(k);
+            }
+            if let FOp::Ins { n, .. } | FOp::Del { n, .. } = o {
+                used.insert(name_of(*n));
             }
         }
         let mut prefixes: BTreeSet<Vec<Vec<u8>>> = BTreeSet::new();
@@ -117,7 +121,13 @@ impl Universe {
             ext.push(Vec::new());
             prefixes.insert(ext);
         }
-        let mut names: Vec<String> = NAMES.iter().map(|s| s.to_string()).collect();
+        // every name the case can touch (live-key ops only hit names some fresh op named) plus
+        // one name nothing is ever written under
+        if used.len() < 2 {
+            used.insert(NAMES[0].to_string());
+            used.insert(NAMES[1].to_string());
+        }
+        let mut names: Vec<String> = used.into_iter().collect();
         names.push(UNUSED_NAME.to_string());
         Universe { names, keys: keys.into_iter().collect(), prefixes: prefixes.into_iter().collect() }
     }
@@ -191,9 +201,11 @@ pub fn check_all<Q: Query>(q: &Q, m: &Model, u: &Universe, what: &str) -> CheckR
             check_prefix(q, m, name, p, what)?;
         }
     }
-    // every key the model holds must be found, whether or not it is in the universe
+    // every key the model holds must be found; by construction they are all in the universe
     for ((n, k), _) in m {
-        check_exact(q, m, n, k, what)?;
+        if !(u.names.contains(n) && u.keys.contains(k)) {
+            check_exact(q, m, n, k, what)?;
+        }
     }
     Ok(())
 }
